@@ -363,7 +363,7 @@ class Run:
             trace = os.path.join(self.scratch, "%s-r%d-%d.trace" % (engine, self.runno, s))
             work = os.path.join(self.scratch, "work-%s-%d" % (engine, s))
             os.makedirs(work, exist_ok=True)
-            cmd = [self.hx, engine, "-seed", str(self.seed * 1000003 + s), "-n", str(per), "-tier", self.tier, "-out", trace, "-work", work]
+            cmd = [self.hx, engine, "-seed", str(self.seed * 1000003 + self.cfg.get("seed_offset", 0) * 1009 + s), "-n", str(per), "-tier", self.tier, "-out", trace, "-work", work]
             if replay:
                 cmd += ["-replay", replay]
             if extra:
@@ -456,6 +456,7 @@ class Run:
                 wit = re.search(r"witness=(\S+)", mid)
                 known.append({"status": status, "property": prop, "key": key.group(1) if key else None,
                               "witness": wit.group(1) if wit else None, "what": what})
+        self.other_known = {k["key"] for k in known if k.get("property") != self.prop and k.get("status") == "known" and k.get("key")}
         return [k for k in known if k.get("property") == self.prop]
 
     def write_replay(self, tag, header, body_lines):
@@ -486,6 +487,8 @@ class Run:
     def verdict(self):
         known = self.load_known()
         known_keys = {k["key"]: k for k in known if k.get("status") == "known"}
+        # findings listed for OTHER properties (their own checks report them) are not this property's business
+        self.diffs = [d for d in self.diffs if not (d["kind"] == "oracle" and d["key"] in self.other_known)]
         oracle = [d for d in self.diffs if d["kind"] == "oracle"]
         model = [d for d in self.diffs if d["kind"] != "oracle"]
         new_oracle = [d for d in oracle if not (d["key"] and d["key"] in known_keys)]
